@@ -391,8 +391,16 @@ def curve_table(rep, u):
             probs.append("algo")
         if n >= 2 * p + 2 or n.bit_length() > r["m"] + 1:
             probs.append("n out of Hasse range")
+        # cofactor (SEC 1, 3.1.1.2.1 step 8): #E = h*n lies in the Hasse interval, so h = floor((sqrt(p)+1)^2 / n)
+        if "h" in r:
+            from math import isqrt
+            lo = -(-(p + 1 - 2 * isqrt(p) - 2) // n)        # ceil((p+1-2*sqrt(p)) / n), with slack for the integer root
+            hi = (p + 1 + 2 * isqrt(p) + 2) // n
+            cands = [h_ for h_ in range(max(lo, 1), hi + 1)]
+            if r["h"] not in cands:
+                probs.append("cofactor h=%s, the Hasse interval admits only %s" % (r["h"], cands))
         nmax = max(nmax, r["m"])
-        desc = "curve %s: sizes consistent, p,n prime, non-singular, G on curve, nG=O, A_M3 flag => a=p-3, m covers bitlen(p)" % nm
+        desc = "curve %s: sizes consistent, p,n prime, non-singular, G on curve, nG=O, cofactor, A_M3 flag => a=p-3, m covers bitlen(p)" % nm
         if probs:
             rep.violated("R-TBL", fn, "curve:%s" % nm, desc, "; ".join(probs))
         else:
